@@ -16,7 +16,12 @@ if __name__ == '__main__':
         for version in ("1.0", "1.1"):
             out[version] = {}
             a = r_ = 0
-            for k, r in pool.imap_unordered(work, [(k, s, version, 5) for k, s in enumerate(cat)]):
+            from props.C15 import deep_mask
+            jobs = [(k, s, version, 5) for k, s in enumerate(cat)]
+            jobs += [(1000 + k, s, version, 9, deep_mask(s)) for k, s in enumerate(S.catalogue_deep())]
+            if version == "1.1":
+                jobs += [(2000 + k, s, version, 5) for k, s in enumerate(S.catalogue_11())]
+            for k, r in pool.imap_unordered(work, jobs):
                 if r is None:
                     continue
                 sid, n, total, res = r
